@@ -1,9 +1,12 @@
 (* C04 -- The quota is the prescribed one.  Proved for the integer-carrier arithmetics (raw units, S = 10^p):
-   the quota each rule's calcQuota() computes.  "Whoever reaches it is elected / never excluded while holding
-   it": quota-scope correspondence + oracle (_partial). *)
+   the quota each rule's calcQuota() computes; and for every arithmetic: the election step of the Gregory-family rules
+   is complete -- right after it no hopeful candidate holds the quota (C04_election_step_elects_every_quota_holder), which
+   with the rules' step order (election precedes any surplus transfer or exclusion in a round) is the clause "whoever
+   reaches the quota is elected at the next election step".  That the step order is the one the code has, and the Meek
+   family / QPQ / Minneapolis cases: quota-scope correspondence + oracle (_partial). *)
 From Coq Require Import ZArith List Bool String.
 From Droop Require Import Model.KernelBase Model.Arith Model.State Model.Prims Model.RulesGregory Model.RulesMeek
-  Proofs.Zlike Proofs.Quota.
+  Proofs.Zlike Proofs.Quota Proofs.ElectStep.
 Open Scope Z_scope.
 
 (* PRF WIGM A.1, CfER, and the parametric WIGM rule under fixed-point arithmetic:
@@ -32,6 +35,21 @@ Theorem C04_meek_quota : forall A S (ZL : zlike A S) cfg, 0 <= cf_nseats cfg -> 
   exists q, meek_quota A cfg st = Ok q /\ raw ZL q = raw ZL (votes st) * S / ((cf_nseats cfg + 1) * S) + 1.
 Proof. exact meek_quota_value. Qed.
 Print Assumptions C04_meek_quota.
+
+(* the election step "for c in hopefuls by vote, descending, if hasQuota(c): c.elect(...)" leaves no hopeful candidate
+   with the quota: hq is the rule's hasQuota (vote >= quota; vote > quota under exact arithmetic) *)
+Theorem C04_election_step_elects_every_quota_holder : forall A cfg (hq : est A -> cand A -> bool) pend msg (s : est A),
+  (forall s1 s2 c, quota s1 = quota s2 -> hq s1 c = hq s2 c) ->
+  forall c, In c (cands (elect_with_quota A cfg hq pend msg (fun _ => true) s)) -> is_hopeful A c = true ->
+  hq (elect_with_quota A cfg hq pend msg (fun _ => true) s) c = false.
+Proof. exact elect_step_complete. Qed.
+Print Assumptions C04_election_step_elects_every_quota_holder.
+
+(* the two tests the rules use depend on the quota and the candidate only *)
+Theorem C04_quota_tests_are_local : forall A (s1 s2 : est A) c, quota s1 = quota s2 ->
+  ge_quota A s1 c = ge_quota A s2 c /\ has_quota_exact A s1 c = has_quota_exact A s2 c.
+Proof. exact (fun A s1 s2 c E => conj (ge_quota_ext A s1 s2 c E) (has_quota_exact_ext A s1 s2 c E)). Qed.
+Print Assumptions C04_quota_tests_are_local.
 
 Example C04_concrete :
   droop_quota_eps (Fixed 4 4) (mkConfig "wigm-prf"%string MWigm 2 7 false false false false 0) = Ok 23334.
